@@ -130,6 +130,7 @@ func rulesC01(c *Ctx) {
 	}
 	c.Extra["sink_sites_on_cone"] = nSinks
 	rulesC01Round2(c, g, cone, parent)
+	c01Round3(c, cone)
 
 	// ---- (c) proposal cache completeness
 	ix := c.P.BuildIndex()
